@@ -37,6 +37,14 @@ LxTab == [
   am2 |-> Lexeme(Name("a_{-2}", FALSE), <<"a", "_", "{", "-", "2", "}">>),
   am0 |-> Lexeme(Name("a_{-0}", FALSE), <<"a", "_", "{", "-", "0", "}">>),
   a0 |-> Lexeme(Name("a_{0}", FALSE), <<"a", "_", "{", "0", "}">>),
+  \* look-alikes of a numbered instance: the instance followed by primes / an upper index, other decorations of the head
+  a1p |-> Lexeme(Name("a_{1}'", FALSE), <<"a", "_", "{", "1", "}", "'">>),
+  a1pp |-> Lexeme(Name("a_{1}''", FALSE), <<"a", "_", "{", "1", "}", "'", "'">>),
+  a1up |-> Lexeme(Name("a_{1}^{2}", FALSE), <<"a", "_", "{", "1", "}", "^", "{", "2", "}">>),
+  ap |-> Lexeme(Name("a'", FALSE), <<"a", "'">>),
+  ax |-> Lexeme(Name("a_{x}", FALSE), <<"a", "_", "{", "x", "}">>),
+  xpp |-> Lexeme(Name("x''", FALSE), <<"x", "'", "'">>),
+  fp |-> Lexeme(Name("f'", FALSE), <<"f", "'">>),
   A1 |-> Lexeme(Name("A_{1}", FALSE), <<"A", "_", "{", "1", "}">>),
   as1 |-> Lexeme(Name("a_1", FALSE), <<"a", "_", "1">>),
   ab1 |-> Lexeme(Name("ab_{1}", FALSE), <<"a", "b", "_", "{", "1", "}">>),
@@ -65,6 +73,8 @@ ASSUME LET h == <<"a">> IN
   /\ ~IsInstanceOf(LxTab.a01.ch, h) /\ ~IsInstanceOf(LxTab.am0.ch, h) /\ ~IsInstanceOf(LxTab.A1.ch, h)
   /\ ~IsInstanceOf(LxTab.as1.ch, h) /\ ~IsInstanceOf(LxTab.ab1.ch, h) /\ ~IsInstanceOf(LxTab.a.ch, h)
   /\ IsInstanceOf(LxTab.ab1.ch, <<"a", "b">>)
+  /\ ~IsInstanceOf(LxTab.a1p.ch, h) /\ ~IsInstanceOf(LxTab.a1pp.ch, h) /\ ~IsInstanceOf(LxTab.a1up.ch, h)
+  /\ ~IsInstanceOf(LxTab.ap.ch, h) /\ ~IsInstanceOf(LxTab.ax.ch, h)
 
 \* ---------------------------------------------------------------- option space
 Baseline == [fmode |-> "off", req |-> "none", forb |-> "none", instr |-> "none", userf |-> TRUE, consts |-> "userc",
@@ -211,7 +221,14 @@ NRQuick == { <<"sin", "fn0">>, <<"sinh", "fn0">>, <<"cos", "fn0">>, <<"f", "fn0"
 NRRich == NRQuick \cup
           { <<"abs", "fn0">>, <<"si", "fn0">>, <<"sin", "var">>, <<"a", "var">>, <<"am2", "var">>, <<"am0", "var">>,
             <<"A1", "var">>, <<"sib2", "var">>, <<"q", "suf">>, <<"pct", "suf">>, <<"z", "fn0">>, <<"n", "var">> }
-NR == (IF Rich THEN NRRich ELSE NRQuick)
+(* look-alikes of allowed names (only the exact name is allowed): a numbered instance followed by a prime or an upper
+   index; richer: two primes, the decorated head (a', a_1, a_{x}), a variable with two primes, a user function
+   followed by a prime -- each is out of scope whatever the configuration *)
+LookAlikes == IF ~HasVars THEN {}
+              ELSE {<<"a1p", "var">>, <<"a1up", "var">>}
+                   \cup (IF Rich THEN {<<"a1pp", "var">>, <<"ap", "var">>, <<"as1", "var">>, <<"ax", "var">>, <<"xpp", "var">>,
+                                       <<"fp", "fn0">>, <<"fp", "fnx">>} ELSE {})
+NR == (IF Rich THEN NRRich ELSE NRQuick) \cup LookAlikes
       \cup (IF Part = "list" THEN {<<"u", "var">>, <<"sib2", "var">>, <<"sib1", "fnx">>} ELSE {})
       \cup (IF Part = "matrix" THEN {<<"I", "var">>, <<"vc", "var">>} ELSE {})
       \cup (IF Part \in {"sum", "formula", "numerical"} THEN {<<"infty", "var">>} ELSE {})
